@@ -43,6 +43,9 @@ def _root_.CV.GenReg.RStmt.names : RStmt → List Atom
   | .bin v _ a b => v.names ++ a.names ++ b.names
   | .opasg v _ a => v.names ++ a.names
   | .inc v | .dec v => v.names
+  | .asgW s a => [.var s, .el s (.k 1)] ++ a.lo.names ++ a.hi.names
+  | .binW s _ a b => [.var s, .el s (.k 1)] ++ a.lo.names ++ a.hi.names ++ b.lo.names ++ b.hi.names
+  | .opasgW s _ a => [.var s, .el s (.k 1)] ++ a.lo.names ++ a.hi.names
 
 def Cond.names : Cond → List Atom
   | .cmp _ a b => a.names ++ b.names
@@ -84,6 +87,9 @@ def pureSpec (L : Layout) (σ : SrcSt) : RStmt → SrcSt
   | .opasg v op a => binPure L σ v op v.ra a
   | .inc v => wr L σ v (rval L σ v.ra + 1)
   | .dec v => wr L σ v (rval L σ v.ra - 1)
+  | .asgW s a => asgWSpec L σ s a
+  | .binW s op a b => let p := wordered op a b; binWSpec L σ s op p.1 p.2
+  | .opasgW s op a => binWSpec L σ s op (.wvar s) a
 
 mutual
 def semPure (L : Layout) : Nat → SrcSt → SStmt → Option Out
@@ -236,6 +242,23 @@ theorem rordered_names (L : Layout) (op : BOp) (a b : RA) (ha : NoTmp L a.names)
   · exact ⟨hb, ha⟩
   · exact ⟨ha, hb⟩
 
+theorem asgWSpec_eqOff (L : Layout) {σ τ : SrcSt} (h : EqOff L σ τ) (s : String) (a : WA)
+    (hl : NoTmp L a.lo.names) (hh : NoTmp L a.hi.names) : EqOff L (asgWSpec L σ s a) (asgWSpec L τ s a) := by
+  simp only [asgWSpec]
+  rw [rval_eqOff L h (.of a.lo) hl]
+  have h1 := wr_eqOff L h (.var s) (rval L τ (.of a.lo))
+  rw [rval_eqOff L h1 (.of a.hi) hh]
+  exact wr_eqOff L h1 _ _
+
+theorem binWSpec_eqOff (L : Layout) {σ τ : SrcSt} (h : EqOff L σ τ) (s : String) (op : BOp) (x y : WA)
+    (hxl : NoTmp L x.lo.names) (hxh : NoTmp L x.hi.names) (hyl : NoTmp L y.lo.names) (hyh : NoTmp L y.hi.names) :
+    EqOff L (binWSpec L σ s op x y) (binWSpec L τ s op x y) := by
+  simp only [binWSpec]
+  rw [rval_eqOff L h (.of x.lo) hxl, rval_eqOff L h (.of y.lo) hyl]
+  have h1 := wr_eqOff L h (.var s) (lowRes op (rval L τ (.of x.lo)) (rval L τ (.of y.lo))).1
+  rw [rval_eqOff L h1 (.of x.hi) hxh, rval_eqOff L h1 (.of y.hi) hyh]
+  exact wr_eqOff L h1 _ _
+
 /-- one statement: the specification with scratch cell and the plain reading agree off the scratch cell -/
 theorem rspec_pure (L : Layout) {σ τ : SrcSt} (h : EqOff L σ τ) (st : RStmt) (hn : NoTmp L st.names) :
     EqOff L (rspec L σ st) (pureSpec L τ st) := by
@@ -263,6 +286,24 @@ theorem rspec_pure (L : Layout) {σ τ : SrcSt} (h : EqOff L σ τ) (st : RStmt)
     simp only [rspec, pureSpec]
     rw [rval_eqOff L h v.ra (by rw [ra_names_lv]; exact hn)]
     exact wr_eqOff L h v _
+  | asgW s a =>
+    simp only [rspec, pureSpec]
+    exact asgWSpec_eqOff L h s a (NoTmp.right (NoTmp.left hn)) (NoTmp.right hn)
+  | binW s op a b =>
+    simp only [rspec, pureSpec]
+    have hal : NoTmp L a.lo.names := NoTmp.right (NoTmp.left (NoTmp.left (NoTmp.left hn)))
+    have hah : NoTmp L a.hi.names := NoTmp.right (NoTmp.left (NoTmp.left hn))
+    have hbl : NoTmp L b.lo.names := NoTmp.right (NoTmp.left hn)
+    have hbh : NoTmp L b.hi.names := NoTmp.right hn
+    unfold wordered
+    split
+    · exact binWSpec_eqOff L h s op b a hbl hbh hal hah
+    · exact binWSpec_eqOff L h s op a b hal hah hbl hbh
+  | opasgW s op a =>
+    simp only [rspec, pureSpec]
+    have hs : NoTmp L [Atom.var s, Atom.el s (.k 1)] := NoTmp.left (NoTmp.left hn)
+    exact binWSpec_eqOff L h s op (.wvar s) a (fun v hv => hs v (by simp [WA.lo, Atom.names] at hv; simp [hv]))
+      (fun v hv => hs v (by simp [WA.hi, Atom.names] at hv; simp [hv])) (NoTmp.right (NoTmp.left hn)) (NoTmp.right hn)
 
 theorem evalCond_eqOff (L : Layout) {σ τ : SrcSt} (h : EqOff L σ τ) (c : Cond) (hn : NoTmp L c.names) :
     evalCond L σ c = evalCond L τ c := by
